@@ -34,6 +34,8 @@ TRUSTED_BASE = [
     'ThreadPoolExecutor runs try_again_on_error(fn) in one thread; Pdb executes exactly the string returned by the prompt function',
 ]
 ASSUMPTIONS = [
+    'a run that dies of the ThreadDoneCallback race (RuntimeError: Set changed size during iteration, property C18) is not '
+    'counted for or against this property (reported as runs_lost_to_the_C18_done_callback_race)',
     'a trace number is started at most once and ended only when its thread/task is done (no prompt open) -- '
     'labels violating this are ONotEnabled in the model; the first half is C06_trace_no_injective',
     'the order of OnStartPrompt events of different threads may differ from the order of the counter calls; '
@@ -478,6 +480,12 @@ def oracle(job, res):
 
 # ---------------------------------------------------------------- entry points
 
+def foreign_crash(res) -> bool:
+    """The run died of the race in nextline/utils/done_callback/thread.py (ThreadDoneCallback iterates a set that
+    another thread registers into: 'Set changed size during iteration') -- the subject of property C18, not of this one."""
+    return 'Set changed size during iteration' in str(res.get('error') or '')
+
+
 def _run(ctx, jobs) -> Corr:
     from .. import child
     corr = Corr()
@@ -493,7 +501,11 @@ def _run(ctx, jobs) -> Corr:
     hist_kinds: dict[str, int] = {}
     seen = set()
     n_conc = 0
+    n_foreign = 0
     for job, res in zip(jobs, results):
+        if foreign_crash(res):
+            n_foreign += 1
+            continue
         payload = {'src': job['src'], 'policy_args': job['policy']['args']}
         for sig, what in oracle(job, res):
             corr.violations.append(Violation(sig, what, {**payload, 'sent': res.get('sent'),
@@ -521,6 +533,7 @@ def _run(ctx, jobs) -> Corr:
                 openset.discard(e[2])
         n_conc += mx >= 2
     corr.evaluations = len(cases)
+    corr.extra['runs_lost_to_the_C18_done_callback_race'] = n_foreign
     CH = 100
     files = {f'c07_{i // CH}': cases_file(cases[i:i + CH]) for i in range(0, len(cases), CH)}
     for name, (ok, out) in ctx.coq_eval_many(files).items():
